@@ -44,6 +44,7 @@ enum Kind {
     K_ADD_FAILURES,   // a = n: n failures recorded through UtestShell::addFailure without leaving the phase; d = line; s2 = token
     K_NESTED_RUN,     // the test builds a TestTestingFixture and runs a nested test through it (a = 1: the nested test fails), then goes on: whatever it records afterwards is its own
     K_DETECTOR_OFF,   // the test switches the leak detector off (as a test may around code it does not want tracked) and fails before it switches it on again
+    K_MISUSE_FREE,    // the test releases an address that was never allocated: the detector fails it on the spot (its report is about that release and nothing else)
     K_COUNT
 };
 const char* kindName(int k);
@@ -65,19 +66,25 @@ inline const BitsCase& bitsCase(int64_t i) {
         { 1, 1UL, 0UL, 1UL }, { 2, 0x0100UL, 0UL, 0x0100UL }, { 4, 0x00010000UL, 0UL, 0x00ff0000UL }, { 8, 0x0000000100000000UL, 0UL, 0x000000ff00000000UL } };
     return t[(size_t)(i < 0 ? 0 : i) % N_BITS_CASES];
 }
-enum { N_OPERAND_PAIRS = 12 };
+enum { N_FIXED_OPERAND_PAIRS = 12, N_OPERAND_PAIRS = 12 + 130 };      // the pairs behind the table: two strings of n characters (n = 0..129) that differ in their last one, so that messages of every length around the formatter's internal buffer occur
 inline const OperandPair& operandPair(int64_t i) {
     static char longA[400], longB[400]; static bool init = false;
     if (!init) { init = true; for (int k = 0; k < 399; k++) longA[k] = longB[k] = (char)(0x80 + k % 64); longA[398] = (char)0xf1; longB[398] = (char)0xf2; longA[399] = longB[399] = 0; }
-    static const OperandPair t[N_OPERAND_PAIRS] = {
+    static const OperandPair t[N_FIXED_OPERAND_PAIRS] = {
         { "\x80", "\x81", 0 }, { "caf\xc3\xa9", "caf\xc3\xa8", 4 }, { "a\x01z", "a\x02z", 1 }, { "", "x", 0 }, { "same\xffprefix\xfe", "same\xffprefix\xfd", 11 },
         { "line\nbreak", "line\rbreak", 4 }, { longA, longB, 398 }, { "abc", "abd", 2 }, { "\xe2\x82\xac 5", "\xe2\x82\xad 5", 2 }, { "tail\x90", "tail\x90\x91", 5 },
         { "a\x01", "a\\x01", 1 },
         { "x\nA\tq", "x\nB\tq", 2 } };      // the shared prefix holds a character that is printed as two: the position is the one in the operands, not in their printed forms      // a control character against the four characters of its own escape: the printed forms are the same text
-    return t[(size_t)(i < 0 ? 0 : i) % N_OPERAND_PAIRS];
+    size_t k = (size_t)(i < 0 ? 0 : i) % N_OPERAND_PAIRS;
+    if (k >= N_FIXED_OPERAND_PAIRS) {
+        static char e[130][132], a[130][132]; static OperandPair dyn[130]; static bool dynInit = false;
+        if (!dynInit) { dynInit = true; for (int n = 0; n < 130; n++) { for (int c = 0; c < n; c++) e[n][c] = a[n][c] = (char)('a' + c % 26); e[n][n] = 'X'; a[n][n] = 'Y'; e[n][n + 1] = a[n][n + 1] = 0; dyn[n].expected = e[n]; dyn[n].actual = a[n]; dyn[n].at = n; } }
+        return dyn[k - N_FIXED_OPERAND_PAIRS];
+    }
+    return t[k];
 }
 
-inline bool isTerminating(int k) { return k == K_FAIL_CPP || k == K_FAIL_C || k == K_THROW_STD || k == K_THROW_FOREIGN; }
+inline bool isTerminating(int k) { return k == K_FAIL_CPP || k == K_FAIL_C || k == K_THROW_STD || k == K_THROW_FOREIGN || k == K_MISUSE_FREE; }
 
 // events recorded while the real framework runs
 enum EvType { E_TESTS_START = 1, E_GROUP_START, E_TEST_START, E_TEST_END, E_GROUP_END, E_TESTS_END, E_OP, E_PROBE, E_FAILURE };
